@@ -7,6 +7,10 @@ import time
 VERIF = os.path.dirname(os.path.dirname(os.path.abspath(__file__)))
 
 
+def evidence_dir():
+    return os.environ.get('LSA_EVIDENCE_DIR') or os.path.join(VERIF, 'evidence')
+
+
 class Obligation:
     __slots__ = ('clause', 'rule', 'construct', 'role', 'ok', 'detail', 'loc', 'facts')
 
@@ -88,7 +92,7 @@ class Check:
             (listed if o.key in known_keys else new).append(o)
         for o in listed:
             print(f'KNOWN-FINDING: property={self.prop_id} {o.clause} {o.construct} [{o.role}] {o.detail}')
-        replay_dir = os.path.join(VERIF, 'evidence', 'replay')
+        replay_dir = os.path.join(evidence_dir(), 'replay')
         for o in new:
             os.makedirs(replay_dir, exist_ok=True)
             fn = f'{self.prop_id}-' + ''.join(ch if ch.isalnum() else '_' for ch in o.key)[:120] + '.json'
@@ -140,6 +144,6 @@ class Check:
             'wall_s': round(time.time() - self.t0, 3),
             'violations': nviol,
         }
-        os.makedirs(os.path.join(VERIF, 'evidence'), exist_ok=True)
-        with open(os.path.join(VERIF, 'evidence', f'{self.prop_id}.json'), 'w') as fh:
+        os.makedirs(evidence_dir(), exist_ok=True)
+        with open(os.path.join(evidence_dir(), f'{self.prop_id}.json'), 'w') as fh:
             json.dump(ev, fh, indent=1, default=str)
